@@ -528,7 +528,7 @@ def run(ctx):
         cyc = [k for k in order if any(v["cycle"] for v in lays[k][1].values())]
         plain = [k for k in order if k not in set(cyc)]
         events, nlay_traced = [], 0
-        trace_budget = 500 if ctx.quick else 3000
+        trace_budget = 300 if ctx.quick else 3000
         traced = set(rnd.sample(order, min(trace_budget, len(order))))
         with ctx.timed("replay_work"):
             for group in (plain, cyc):
@@ -619,7 +619,7 @@ def replay(ctx, path):
             c = case["case"]
             root = fs.new(resolve_files(c))
             out = common.replay_batch([resolve_req(root, c)])[0]
-            print(json.dumps({"text": c["text"], "files": sorted(resolve_files(c)), "transcribed": {k: c[k] for k in ("cli", "lib", "lsp", "col", "doc", "docfixed", "sigs")},
+            print(json.dumps({"text": c["text"], "files": resolve_files(c), "transcribed": {k: c[k] for k in ("cli", "lib", "lsp", "col", "doc", "docfixed", "sigs")},
                               "real": out}, indent=1))
         elif kind == "spell":
             c = case["case"]
